@@ -30,6 +30,16 @@ def configs(ctx):
         for start in (0, 1, 2):
             sig = [rng.choice((1, -1, 0)) for _ in range(d)]
             yield ('start', sig, start, None, None)
+    # every other start index a single hex digit allows: the labels then use the letters a..f - among them `e`, the
+    # letter of the prefix - and custom bases over such labels
+    for d in (1, 2, 3, 4):
+        for start in sorted({16 - d, 15 - d, 14 - d, 13 - d, 10, rng.randrange(3, 16 - d)} - {0, 1, 2}):
+            if 0 <= start <= 16 - d:
+                yield ('start', [rng.choice((1, -1, 0)) for _ in range(d)], start, None, None)
+    for d in (2, 3, 4):
+        for _ in range(2 if ctx.quick else 8):
+            start = rng.choice([s_ for s_ in range(9, 17 - d)])
+            yield ('custom-rnd', [rng.choice((1, -1, 0)) for _ in range(d)], None, random_custom_basis(rng, d, start), None)
     # custom bases: exhaustive d <= 2
     for d in (1, 2):
         for start in (0, 1, 2):
